@@ -1762,6 +1762,11 @@ def check_C09(spec, hashseeds=(1, 3), keep=None):
                 ln for ln in b if ",TASK_GRAPH_RELEASE," in ln]:
             vid = "release.unseeded_default_rng"
         else:
+            ua, ub = sort_utilization_blocks(a), sort_utilization_blocks(b)
+            first = next((i for i, (x, y) in enumerate(zip(ua, ub)) if x != y),
+                         min(len(ua), len(ub)))
+            xa = ua[first] if first < len(ua) else "<end>"
+            xb = ub[first] if first < len(ub) else "<end>"
             kind = (xa.split(",") + ["", ""])[1] or "x"
             vid = "trace.differs.%s" % kind
         if vid == "release.unseeded_default_rng":
